@@ -71,7 +71,7 @@ theorem loadOrSet1_ok (buf : List α) (t : TIdx) (N : Nat) (h : ∀ j, j < N →
 
 theorem bcastOff_lt (R oc rows cols o : Nat) (hoc : 0 < oc) (hok : OperandOK R oc rows cols)
     (hrows : 0 < rows) (ho : o < R * oc) : bcastOff rows cols oc o < rows * cols := by
-  obtain ⟨hc, hrw, _⟩ := hok
+  obtain ⟨hc, hrw⟩ := hok
   unfold bcastOff
   have hcols : 0 < cols := by rcases hc with h | h <;> omega
   have h1 : (if rows = 1 then 0 else o / oc) < rows := by
